@@ -1197,6 +1197,11 @@ fn cmd_targeted(out: &str) {
         seg += 1;
         steps += fvs::run_scripted(&mut tr, seg);
     }
+    #[cfg(feature = "async")]
+    if asy {
+        seg += 1;
+        steps += asyncops::arc_probes(&mut tr, seg);
+    }
     tr.flush();
     println!("{{\"segments\":{},\"steps\":{},\"events\":{}}}", seg, steps, tr.n);
 }
@@ -1209,6 +1214,11 @@ fn main() {
         Some("replay") => cmd_replay(&args[2], &args[3]),
         Some("random") => cmd_random(&args[2], args[3].parse().unwrap(), seed),
         Some("targeted") => cmd_targeted(&args[2]),
+        #[cfg(feature = "async")]
+        Some("arc-child") => {
+            std::panic::set_hook(Box::new(|_| {}));
+            asyncops::arc_child(&args[2])
+        }
         Some("targeted-async") if cfg!(feature = "async") => {
             ASYNC_MODE.store(true, std::sync::atomic::Ordering::Relaxed);
             cmd_targeted(&args[2])
